@@ -101,7 +101,11 @@ class ApplicationRules:
     @property
     def status_tree(self) -> Optional[ast.Expr]:
         """ Return the root expression of the AST-parsed status formula. """
-        return self._status_tree.body[0].value if self._status_tree else None
+        if self._status_tree:
+            # NOTE: anything but an expression statement is kept as it is, so that its evaluation is rejected
+            statement = self._status_tree.body[0]
+            return statement.value if type(statement) is ast.Expr else statement
+        return None
 
     def check_stop_sequence(self, application_name: str) -> None:
         """ Check the stop_sequence value.
@@ -838,8 +842,12 @@ class ApplicationStatus:
             raise ApplicationStatusParseError(f'no match for expression={node.s}')
         # handle any/all functions
         if type(node) is ast.Call:
+            if type(node.func) is not ast.Name:
+                raise ApplicationStatusParseError(f'unsupported function call={type(node.func).__name__}')
             if node.func.id not in ['all', 'any']:
                 raise ApplicationStatusParseError(f'unsupported function={node.func.id}')
+            if len(node.args) != 1 or node.keywords:
+                raise ApplicationStatusParseError(f'exactly one argument expected for function={node.func.id}')
             args_eval = self.evaluate(node.args[0])
             if type(args_eval) is bool:
                 args_eval = [args_eval]
@@ -903,7 +911,10 @@ class ApplicationStatus:
     def _get_matches(self, pattern_name: str) -> List[str]:
         """ Return the process names matching the pattern. """
         results = []
-        pattern = re.compile(r'^%s$' % pattern_name)
+        try:
+            pattern = re.compile(r'^%s$' % pattern_name)
+        except re.error:
+            raise ApplicationStatusParseError(f'invalid pattern={pattern_name}')
         for name in self.processes.keys():
             if pattern.match(name):
                 results.append(name)
